@@ -240,21 +240,9 @@ def cStd (o : Opts) (d : Deps) : List Str :=
       ++ (if d.usesPrimStaticArray then [lit "string.h"] else []))).map angle
   else []
 
-/-- The standard headers of C++ `Language.get_includes` before formatting (fixed code). -/
+/-- The standard headers of C++ `Language.get_includes` before formatting (the fixes leave it as it is: its output is
+pinned by doctests). -/
 def cppStdNames (o : Opts) (d : Deps) : List Str :=
-  [lit "limits"]
-  ++ (if o.useStd then
-        (if d.usesInteger then [lit "cstdint"] else [])
-        ++ (if d.usesArray || d.usesPrimStaticArray then [lit "array"] else [])
-        ++ (if d.usesBoolStaticArray then [lit "bitset"] else [])
-      else [])
-  ++ (if d.usesUnion then
-        (if hasVariant o then [lit "type_traits", lit "variant"]
-         else [lit "memory", lit "new", lit "type_traits", lit "utility"])
-      else [])
-
-/-- Before the fix: only `<variant>`, only with `has_variant`. -/
-def cppStdNamesBeforeFix (o : Opts) (d : Deps) : List Str :=
   [lit "limits"]
   ++ (if o.useStd then
         (if d.usesInteger then [lit "cstdint"] else [])
@@ -270,7 +258,6 @@ def cppGetIncludesWith (names : Opts → Deps → List Str) (o : Opts) (d : Deps
   ++ (if d.usesVla ∧ o.vlaInc ≠ [] then [o.vlaInc] else [])
 
 def cppGetIncludes := cppGetIncludesWith cppStdNames
-def cppGetIncludesBeforeFix := cppGetIncludesWith cppStdNamesBeforeFix
 
 /-- `filter_includes` = `generate_include_filepart_list(ext, sort=True)`. -/
 def filterIncludesWith (getInc : Opts → Deps → List Str) (pcfg : Namespace.Cfg) (o : Opts) (d : Deps) :
@@ -292,6 +279,13 @@ def cOmitBlock (o : Opts) : List Str := if o.omitSer then [hAssert, hStdbool, hS
 def cppPortBlock (fixedPort : Bool) (incs : List Str) : List Str :=
   if fixedPort ∧ hCstdint ∉ incs then [hCstdint] else []
 
+/-- What `cpp/templates/base.j2` adds below the filter result when the file defines a union (fixed template):
+`<type_traits>` for the accessor wrappers, and for the union without `std::variant` `<memory>`, `<new>`, `<utility>`. -/
+def cppUnionBlock (o : Opts) (t : Top) : List Str :=
+  if t.definesUnion then
+    lit "<type_traits>" :: (if hasVariant o then [] else [lit "<memory>", lit "<new>", lit "<utility>"])
+  else []
+
 /-- All `#include` operands of the generated header, in file order. -/
 def emitted (lang : Lang) (pcfg : Namespace.Cfg) (o : Opts) (t : Top) : Except Err (List Str) :=
   match lang with
@@ -302,14 +296,14 @@ def emitted (lang : Lang) (pcfg : Namespace.Cfg) (o : Opts) (t : Top) : Except E
   | .cpp =>
     match filterIncludesWith cppGetIncludes pcfg o (direct t) with
     | .error e => .error e
-    | .ok l => .ok (l ++ cppPortBlock t.fixedPort l)
+    | .ok l => .ok (l ++ cppUnionBlock o t ++ cppPortBlock t.fixedPort l)
   | .py => .ok []
 
-/-- The unchanged code: outer-object union test, no omit block, no port block, old C++ list. -/
+/-- The unchanged code: outer-object union test, no omit block, no union block, no port block. -/
 def emittedBeforeFix (lang : Lang) (pcfg : Namespace.Cfg) (o : Opts) (t : Top) : Except Err (List Str) :=
   match lang with
   | .c => filterIncludesWith cStd pcfg o (directBeforeFix t)
-  | .cpp => filterIncludesWith cppGetIncludesBeforeFix pcfg o (directBeforeFix t)
+  | .cpp => filterIncludesWith cppGetIncludes pcfg o (directBeforeFix t)
   | .py => .ok []
 
 /-! ## Python imports -/
